@@ -84,7 +84,7 @@ func (p c10) Run(runseed uint64, tier string, acc *Acc) []*core.Violation {
 		acc.Inc("class/huge-values")
 	}
 	for k := 1; k <= m; k++ {
-		if (f.W.Large || f.W.Many) && r.Intn(m) >= 400 {
+		if (f.W.Large || f.W.Many || f.W.Shape == "wide") && r.Intn(m) >= 400 {
 			continue // large and many-row-group classes: a seeded sample of about 400 call positions
 		}
 		fl := func() string { return core.Flavors[r.Intn(len(core.Flavors))] }
